@@ -222,7 +222,8 @@ the indexer partition is a key of `IK` (prefix-free, `WFKeys IK`) committed at a
 block's hash key; each of the three by-height readers FIRST resolves `height → hashKey` through its own
 view (`t.db.Get(t.blockHeightKey(height))`) and only then touches the cache, always under
 `string(hashKey)`; only `GetBlockByHeight` adds (full blocks); `GetBlockByHash` bypasses the cache and
-`GetQCByHeight` goes through `GetBlockByHeight`. -/
+`GetQCByHeight` goes through `GetBlockByHeight`; the one `Add` of a reader is guarded by
+`!t.hasPendingWrites()` (no pending operation in the indexer txn). -/
 theorem block_cache_keyed_by_hash_key :
     Gen.Store.blockCacheDecl = "lru.New[string, *lib.BlockResult](64)" ∧
     (Gen.Store.blockCacheUse.filter (·.1 = "IndexBlock")).map (·.2) =
@@ -235,7 +236,9 @@ theorem block_cache_keyed_by_hash_key :
     (Gen.Store.blockCacheUse.filter (·.1 = "getBlockForPage")).map (·.2) =
       ["t.db.Get(t.blockHeightKey(height))", "blockCache.Get(string(hashKey))", "t.getBlock(hashKey, transactions)"] ∧
     (Gen.Store.blockCacheUse.filter (·.1 = "GetBlockByHash")).map (·.2) = ["t.getBlock(t.blockHashKey(hash), true)"] ∧
-    (Gen.Store.blockCacheUse.filter (·.1 = "GetQCByHeight")).map (·.2) = ["t.GetBlockByHeight(height)"] := by decide
+    (Gen.Store.blockCacheUse.filter (·.1 = "GetQCByHeight")).map (·.2) = ["t.GetBlockByHeight(height)"] ∧
+    Gen.Store.blockCacheAddGuards = ["!t.hasPendingWrites()"] ∧
+    Gen.Store.hasPendingWritesReturns = "len(t.db.txn.ops) != 0" := by decide
 
 /-- the cache keying of the model is read off the source: by hash key exactly when the cache is created
 with a `string` key and every reader looks the height up in its own view before any cache call -/
@@ -243,12 +246,15 @@ def cacheKeyingOfSource : CacheKeying :=
   if Gen.Store.blockCacheDecl = "lru.New[string, *lib.BlockResult](64)" ∧
      (Gen.Store.blockCacheUse.filter (·.1 = "IndexBlock")).map (·.2) =
        ["blockCache.Add(string(t.blockHashKey(b.BlockHeader.Hash)), b)"] ∧
-     (["GetBlockByHeight", "GetBlockHeaderByHeight", "getBlockForPage"].all fun r =>
-       ((Gen.Store.blockCacheUse.filter (·.1 = r)).map (·.2)).head? = some "t.db.Get(t.blockHeightKey(height))" &&
-       ((Gen.Store.blockCacheUse.filter (·.1 = r)).map (·.2)).all fun c =>
-         c == "t.db.Get(t.blockHeightKey(height))" || c == "blockCache.Get(string(hashKey))" ||
-         c == "t.getBlock(hashKey, true)" || c == "t.getBlock(hashKey, false)" || c == "t.getBlock(hashKey, transactions)" ||
-         (r == "GetBlockByHeight" && c == "blockCache.Add(string(hashKey), block)")) = true
+     (Gen.Store.blockCacheUse.filter (·.1 = "GetBlockByHeight")).map (·.2) =
+       ["t.db.Get(t.blockHeightKey(height))", "t.getBlock(hashKey, true)", "blockCache.Get(string(hashKey))",
+        "t.getBlock(hashKey, true)", "blockCache.Add(string(hashKey), block)"] ∧
+     (Gen.Store.blockCacheUse.filter (·.1 = "GetBlockHeaderByHeight")).map (·.2) =
+       ["t.db.Get(t.blockHeightKey(height))", "blockCache.Get(string(hashKey))", "t.getBlock(hashKey, false)"] ∧
+     (Gen.Store.blockCacheUse.filter (·.1 = "getBlockForPage")).map (·.2) =
+       ["t.db.Get(t.blockHeightKey(height))", "blockCache.Get(string(hashKey))", "t.getBlock(hashKey, transactions)"] ∧
+     Gen.Store.blockCacheAddGuards = ["!t.hasPendingWrites()"] ∧
+     Gen.Store.hasPendingWritesReturns = "len(t.db.txn.ops) != 0"
   then .byHashKey else .byHeight
 
 theorem cache_keying_is_by_hash_key : cacheKeyingOfSource = .byHashKey := by decide
